@@ -184,6 +184,8 @@ class Machine(Interp):
         raise Unsupported(f"slice of {v!r}")
 
     def getitem(self, v, k):
+        if isinstance(v, Obj) and "__data__" in v.fields and not (isinstance(v.cls, ClassInfo) and v.cls.find("__getitem__", self.loader)):
+            v = v.fields["__data__"]
         if isinstance(v, PyDict):
             kk = key_of(k)
             if kk in v.vals:
@@ -214,6 +216,8 @@ class Machine(Interp):
         raise Unsupported(f"subscript of {v!r}")
 
     def setitem(self, v, k, val):
+        if isinstance(v, Obj) and "__data__" in v.fields and not (isinstance(v.cls, ClassInfo) and v.cls.find("__setitem__", self.loader)):
+            v = v.fields["__data__"]
         if isinstance(v, PyDict):
             ops.dict_set(v, k, val)
             return
@@ -325,6 +329,8 @@ class Machine(Interp):
             return self.instantiate(fn, args, kwargs)
         if isinstance(fn, ExtClass):
             return self.instantiate_ext(fn, args, kwargs)
+        if isinstance(fn, Obj) and isinstance(fn.cls, ExtClass) and fn.cls.name == "weakref":
+            return fn.fields["referent"] if fn.fields.get("alive", True) else None
         if isinstance(fn, Obj) and isinstance(fn.cls, ClassInfo):
             f = fn.cls.find("__call__", self.loader)
             if f and f[1] == "method":
@@ -524,9 +530,16 @@ class Machine(Interp):
             target = args[0]
             return self.alloc(target)
         if name == "__init__":
-            if isinstance(cls, ExtClass) and args:
+            if isinstance(cls, ExtClass) and args and cls.name != "object":
                 self.ext_init(args[0], cls, args[1:], kwargs)
             return None
+        if isinstance(cls, ExtClass) and cls.name in ("list", "set", "dict") and args and isinstance(args[0], Obj) \
+                and "__data__" in args[0].fields:
+            from .builtins_ import method_of
+            m = method_of(self, args[0].fields["__data__"], name)
+            if m is None:
+                raise Unsupported(f"{cls.name}.{name}")
+            return self.call(m, args[1:], kwargs)
         if name == "__subclasses__":
             hook = self.spec.opaque_hooks.get("subclasses")
             if hook:
@@ -562,6 +575,8 @@ class Machine(Interp):
                 if c.is_dataclass_decl and name == "__init__":
                     return Builtin("dc_init", lambda it, fr, a, k, _c=c: it.dataclass_init(selfv, _c, a, k))
             else:
+                if c.name.split(".")[-1] in ("object", "ABC", "Generic", "Protocol"):
+                    continue
                 return Builtin(f"{c.name}.{name}", lambda it, fr, a, k, _c=c: it.default_method(
                     _c, name, ([selfv] if name != "__new__" else []) + a, k))
         return Builtin(f"object.{name}", lambda it, fr, a, k: it.default_method(
@@ -579,6 +594,8 @@ class Machine(Interp):
             return [v.keys[k] for k in v.keys]
         if isinstance(v, str):
             return list(v)
+        if isinstance(v, Obj) and "__data__" in v.fields and not (isinstance(v.cls, ClassInfo) and v.cls.find("__iter__", self.loader)):
+            return self.to_list(v.fields["__data__"])
         if isinstance(v, (GenObj, Obj)):
             return list(self.iterate(v))
         if isinstance(v, SymStream):
